@@ -8,6 +8,10 @@ from rules import compile_roles as cr
 from rules import common
 
 EXPLANATION = (
+    "Typestate analysis of compile() (rule C07.T1): the statements of compile() are interpreted over an abstract "
+    "state that tracks one arbitrary module through every local map, with every component call returning or raising "
+    "any package error class, every option setting and every iteration order; invariants are evaluated at the "
+    "component calls and at every return (see rules/compile_ts.py INV). "
     "Static rules over the CFG of MibCompiler.compile() (roles RESULT/FAILED/work maps inferred structurally): "
     "every protocol call (getData/parse/genCode/fileExists/putData) is enclosed by a handler that covers PySmiError "
     "and neither re-raises nor leaves the module unaccounted; no explicit package raise escapes compile(); every "
@@ -25,6 +29,9 @@ ASSUMPTIONS = [
 ]
 
 WIDE = ('PySmiError', 'Exception', 'BaseException')
+
+
+TECHNIQUE = 'CFG rules over compile() (containment of component calls, status stores, paired map updates); typestate abstract interpretation of compile() (path-sensitive dataflow over a finite per-module domain, rules/compile_ts.py)'
 
 
 def r1_containment(chk):
@@ -418,6 +425,13 @@ def r5_failed_result_pairing(chk, rule='C07.R5'):
             if lv:
                 store_keys.add(lv)
             ok = norm(k) in store_keys
+            if not ok and isinstance(k, ast.Name):
+                # `for k in (a, b): if k in FAILED: del FAILED[k]` - forgetting under several names is fine as long
+                # as the name the failure is recorded under is one of them
+                for lp in loops:
+                    if isinstance(lp, ast.For) and isinstance(lp.target, ast.Name) and lp.target.id == k.id and \
+                            isinstance(lp.iter, (ast.Tuple, ast.List)):
+                        ok = any(norm(e) in store_keys for e in lp.iter.elts)
             chk.ob(rule, 'compile/remove %s[..]-key(%s)' % (r.failed, norm(k)), ok, where(r.mod, st),
                    'failure is forgotten under key `%s` but recorded under %s' % (norm(k), sorted(store_keys)))
     chk.floor(rule, 5, '4 FAILED stores + FAILED removals')
@@ -747,6 +761,14 @@ def r9_wellformedness(chk):
 
 
 
+
+def t1_typestate(chk):
+    """typestate analysis of compile() (rules/compile_ts.py): end-to-end bookkeeping invariants for an arbitrary
+    module over every outcome of every component call"""
+    from rules import compile_ts
+    compile_ts.ts_rule(chk, 'C07.T1', ['escape', 'accounted', 'status-effect', 'once', 'verbatim', 'failed-pairing', 'drained', 'own-key'])
+
+
 RULES = [r9_wellformedness, r1_containment, r2_no_package_raise_escapes, r3_status_values, r4_no_silent_drop, r4b_popped_name_accounted,
          r5_failed_result_pairing, r6_single_writer_site, r7_foreign_exceptions,
-         r8_closure_discovery]
+         r8_closure_discovery, t1_typestate]
